@@ -21,7 +21,7 @@ func init() {
 			"each case runs range queries (own boxes, degenerate, enclosing, disjoint, edge/corner touching), priority searches and callback-protocol injections (continue/Stop/wrapped Stop/error at position k) against a linear scan. " +
 			"non-trivial = tree with depth >= 2 (n > 4); distinct by (layout, n, item multiset hash)",
 		Assumptions: []string{
-			"box coordinates are multiples of 1/4 with |c| <= 4096 so squared distances are exact in float64",
+			"distance-order monitors run on layouts whose box coordinates are multiples of 1/4 with |c| <= 4096 (squared distances exact in float64); the decimal and float layouts (ordinates k/10, random mantissas) are judged on range/protocol/count/extent only, with closed-interval comparison of the stored float64 values as the definition of overlap",
 			"linear scan over the loaded items is the reference",
 		},
 		MinNontrivial:    50,
@@ -30,7 +30,7 @@ func init() {
 	})
 }
 
-var layouts = []string{"uniform", "clustered", "collinear", "same-centre", "duplicates", "points", "nested", "overlap"}
+var layouts = []string{"uniform", "clustered", "collinear", "same-centre", "duplicates", "points", "nested", "overlap", "decimal", "float"}
 
 func q(r *run.Rng, lo, hi int) float64 { // quarter-integer in [lo,hi]
 	return float64(r.Range(lo*4, hi*4)) / 4
@@ -72,6 +72,21 @@ func genItems(r *run.Rng, layout string, n int) []rtree.BulkItem {
 			b = rtree.Box{MinX: -d, MinY: -d, MaxX: d, MaxY: d}
 		case "overlap":
 			b = mk(q(r, -5, 5), q(r, -5, 5), q(r, 20, 40), q(r, 20, 40))
+		case "decimal": // non-dyadic ordinates k/10: sums and differences round
+			x0, y0 := float64(r.Range(-30, 30))/10, float64(r.Range(-30, 30))/10
+			b = rtree.Box{MinX: x0, MinY: y0, MaxX: float64(r.Range(0, 12))/10 + x0, MaxY: float64(r.Range(0, 12))/10 + y0}
+			if r.Bool() {
+				b.MaxX, b.MaxY = float64(r.Range(int(x0*10), 40))/10, float64(r.Range(int(y0*10), 40))/10
+				if b.MaxX < b.MinX {
+					b.MaxX = b.MinX
+				}
+				if b.MaxY < b.MinY {
+					b.MaxY = b.MinY
+				}
+			}
+		case "float": // arbitrary 53-bit mantissas
+			x0, y0 := r.Float64()*200-100, r.Float64()*200-100
+			b = rtree.Box{MinX: x0, MinY: y0, MaxX: x0 + r.Float64()*20, MaxY: y0 + r.Float64()*20}
 		}
 		items[i] = rtree.BulkItem{Box: b, RecordID: i}
 	}
@@ -97,8 +112,29 @@ func distRef(a, b rtree.Box) float64 {
 	return dx*dx + dy*dy
 }
 
-func queries(r *run.Rng, items []rtree.BulkItem, m int) []rtree.Box {
+func queries(r *run.Rng, items []rtree.BulkItem, m int, exact bool) []rtree.Box {
 	var qs []rtree.Box
+	if !exact {
+		// queries assembled from ordinates of the items themselves, so that edge
+		// and corner contact is exact although the ordinates are not dyadic
+		for i := 0; i < 2*m && len(items) > 0; i++ {
+			a, b := items[r.Intn(len(items))].Box, items[r.Intn(len(items))].Box
+			var qb rtree.Box
+			switch r.Intn(5) {
+			case 0:
+				qb = a
+			case 1: // shares a's right edge
+				qb = rtree.Box{MinX: a.MaxX, MinY: a.MinY, MaxX: maxf(a.MaxX, b.MaxX), MaxY: a.MaxY}
+			case 2: // shares a's top-right corner
+				qb = rtree.Box{MinX: a.MaxX, MinY: a.MaxY, MaxX: maxf(a.MaxX, b.MaxX), MaxY: maxf(a.MaxY, b.MaxY)}
+			case 3: // shares a's lower-left corner
+				qb = rtree.Box{MinX: minf(a.MinX, b.MinX), MinY: minf(a.MinY, b.MinY), MaxX: a.MinX, MaxY: a.MinY}
+			case 4: // spans between two items
+				qb = rtree.Box{MinX: minf(a.MaxX, b.MinX), MinY: minf(a.MaxY, b.MinY), MaxX: maxf(a.MaxX, b.MinX), MaxY: maxf(a.MaxY, b.MinY)}
+			}
+			qs = append(qs, qb)
+		}
+	}
 	qs = append(qs, rtree.Box{MinX: -5000, MinY: -5000, MaxX: 5000, MaxY: 5000}) // enclosing
 	qs = append(qs, rtree.Box{MinX: 4500, MinY: 4500, MaxX: 4600, MaxY: 4600})   // disjoint
 	qs = append(qs, rtree.Box{MinX: 0, MinY: 0, MaxX: 0, MaxY: 0})               // degenerate
@@ -194,7 +230,7 @@ func oneCase(k *run.K, layout string, n int, nq int, allK bool) {
 		k.Check("extent", okExt && ext == want, "Extent()=%v,%v want %v", ext, okExt, want)
 	}
 
-	qs := queries(r, ref, nq)
+	qs := queries(r, ref, nq, exactLayout(layout))
 	for qi, qb := range qs {
 		// --- range search, complete
 		var got []int
@@ -220,7 +256,7 @@ func oneCase(k *run.K, layout string, n int, nq int, allK bool) {
 		}
 
 		// --- priority search
-		if qi < 4 || qi%3 == 0 {
+		if exactLayout(layout) && (qi < 4 || qi%3 == 0) {
 			var order []int
 			err := t.PrioritySearch(qb, func(id int) error { order = append(order, id); return nil })
 			okOrder := err == nil
@@ -281,6 +317,8 @@ func oneCase(k *run.K, layout string, n int, nq int, allK bool) {
 	}
 }
 
+func exactLayout(l string) bool { return l != "decimal" && l != "float" }
+
 func positions(r *run.Rng, total int, all bool) []int {
 	if all || total <= 6 {
 		p := make([]int, total)
@@ -328,6 +366,19 @@ func protocol(k *run.K, kind string, pos, total int, search func(cb func(int) er
 	}
 }
 
+func minf(a, b float64) float64 {
+	if a < b {
+		return a
+	}
+	return b
+}
+func maxf(a, b float64) float64 {
+	if a > b {
+		return a
+	}
+	return b
+}
+
 func equalInts(a, b []int) bool {
 	if len(a) != len(b) {
 		return false
@@ -370,7 +421,7 @@ func boundarySizes() []int {
 }
 
 func runAll(c *run.Ctx) {
-	reps := c.N(2, 12)
+	reps := c.N(8, 40)
 	for _, layout := range layouts {
 		for n := 0; n <= 40; n++ {
 			for rep := 0; rep < reps; rep++ {
@@ -381,7 +432,7 @@ func runAll(c *run.Ctx) {
 		}
 	}
 	sizes := boundarySizes()
-	bigReps := c.N(1, 6)
+	bigReps := c.N(2, 10)
 	for _, layout := range layouts {
 		for _, n := range sizes {
 			if c.Quick() && n > 1100 && layout != "uniform" && layout != "clustered" {
